@@ -87,7 +87,7 @@ def main():
         corr_targets = sorted({"theories/Corr/%s.vo" % load_family(l["family"]).CORR for l in spec["legs"]})
         ok_corr_build, corr_log = (False, tr_out) if not ok_tr else common.coq_make(corr_targets)
         if ok_corr_build:
-            ok_corr_build, corr_log = common.build_driver()
+            ok_corr_build, corr_log = common.build_driver([load_family(f) for f in sorted({l["family"] for l in spec["legs"]})], workdir)
         if not ok_corr_build:
             notes.append("MODEL-BUILD-FAILED: " + extract_coq_error(corr_log))
         # ---- 3. proofs
@@ -124,7 +124,8 @@ def main():
             notes.append("PROOF-BROKEN: " + (("forbidden: %s; " % forb) if forb else "") + ("audit: %s; " % audit_bad if audit_bad else "") +
                          (extract_coq_error(proof_log) if not ok_proof else ""))
         # ---- 4. harness
-        ok_h, h_log = common.harness_build(sorted({p for l in spec["legs"] for p in l.get("profiles", ["debug"])}))
+        ok_h, h_log = common.harness_build(sorted({p for l in spec["legs"] for p in l.get("profiles", ["debug"])}),
+                                           sorted({l["family"] for l in spec["legs"]}))
         if not ok_h:
             # the crate (with hooks) no longer builds against the harness: the tie cannot be evaluated
             notes.append("HARNESS-BUILD-FAILED: " + h_log[-1500:])
@@ -346,10 +347,6 @@ def setup():
         if not ok:
             return 2
         ok, out = common.harness_build()
-        print(out[-1500:])
-        if not ok:
-            return 2
-        ok, out = common.build_driver()
         print(out[-1500:])
         if not ok:
             return 2
